@@ -110,6 +110,8 @@ _QUAL = re.compile(r'^(pub(\s*\([^)]*\))?|const|unsafe|async|default|extern(\s*"
 def norm(s: str) -> str:
     s = re.sub(r'\s+', ' ', s).strip()
     s = re.sub(r'\s*([<>(),:&\[\]|=;{}])\s*', r'\1', s)
+    # a trailing comma before a closing bracket (rustfmt adds one when it wraps a list) is not a difference
+    s = re.sub(r',([)\]>}])', r'\1', s)
     return s
 
 
